@@ -103,6 +103,16 @@ func runC12(c *core.Ctx) {
 			b.AddChannel(base+1600000, 6, 6)
 			b.AddChannel(base+k5*1600000, 0, 5)
 			c12Channels(c, cfg, b, reg, true)
+			// the very same channel added again after its first copy was switched off, an invalid
+			// Disable / Enable in between, then one more new channel
+			if idx := b.GetCustomUplinkChannelIndices(); len(idx) > 0 {
+				b.DisableUplinkChannelIndex(idx[0])
+				b.AddChannel(base+1600000, 0, 5)
+				b.DisableUplinkChannelIndex(-1)
+				b.EnableUplinkChannelIndex(1 << 20)
+				b.AddChannel(base+6*1600000, 0, 5)
+				c12Channels(c, cfg, b, reg, true)
+			}
 		}
 		c12RX1DR(c, cfg, b, reg, snap)
 		c12Defaults(c, cfg, b, reg, snap)
